@@ -73,6 +73,25 @@ func c14(o Opts) error {
 		}
 		res.Distinctly(cfg.String() + strings.Join(kinds, ","))
 	}
+	// histories with several branches: a vacuum on one branch must not take away
+	// what another branch still holds
+	nb := 25
+	if o.Tier == "thorough" {
+		nb = 600
+	}
+	for i := 0; i < nb; i++ {
+		cfg := genCfg(rng)
+		if cfg.Key == "this" {
+			cfg.Key = "k"
+		}
+		ops, _ := GenHistory(rng, cfg, HistOpts{Len: 4 + rng.Intn(maxLen), Branches: true, Vacuum: true})
+		// make vacuums frequent: append one per branch at the end
+		ops = append(ops, HOp{Kind: "vacuum", Branch: "main"})
+		if err := runHistory(res, cfg, ops, "C14"); err != nil {
+			return err
+		}
+		res.Count("branch_vacuum_histories")
+	}
 	// exhaustive short histories over a small alphabet
 	alpha := []HOp{
 		{Kind: "load", Branch: "main", Vals: []string{"{k:1,j:0,id:9001}", "{k:5,j:1,id:9002}", "{k:null,j:2,id:9003}", "{j:1,id:9004}", "{k:\"a\",j:0,id:9005}"}},
